@@ -106,6 +106,41 @@ def calls (A : Alg F) (p : Prop_ F) : List (Int × Int) → Prop_ F × List F
     let (p, us) := calls A p qs
     (p, u :: us)
 
+/-! ### argument updates: `U(t, t_start, **args)` -/
+
+/-- a propagator object together with the arguments in force (`none` = those given at construction) -/
+structure PropW (F : Type) where
+  p : Prop_ F
+  w : Option Nat
+
+/-- the reset done when new arguments arrive for a time-dependent system -/
+def resetW (As : Option Nat → Alg F) (q : PropW F) (w' : Nat) : PropW F :=
+  { p := { q.p with times := [0], props := [(As (some w')).one], sol := ⟨0, (As (some w')).one⟩ },
+    w := some w' }
+
+/-- argument handling at the start of `__call__`: for a time-dependent system new arguments reset
+the memo and the solver; a constant system ignores them. -/
+def applyW (As : Option Nat → Alg F) (q : PropW F) (w : Option Nat) : PropW F :=
+  match w with
+  | some w' => if !q.p.cte && q.w != some w' then resetW As q w' else q
+  | none => q
+
+/-- the evolution in force for an object -/
+def algOf (As : Option Nat → Alg F) (q : PropW F) : Alg F := As (if q.p.cte then none else q.w)
+
+/-- `__call__` with keyword arguments.  `As w` is the evolution under arguments `w`. -/
+def callW (As : Option Nat → Alg F) (q : PropW F) (t tStart : Int) (w : Option Nat) : PropW F × F :=
+  let q1 := applyW As q w
+  let r := call (algOf As q1) q1.p t tStart
+  ({ q1 with p := r.1 }, r.2)
+
+def callsW (As : Option Nat → Alg F) (q : PropW F) : List (Int × Int × Option Nat) → PropW F × List F
+  | [] => (q, [])
+  | (t, s, w) :: qs =>
+    let r := callW As q t s w
+    let rs := callsW As r.1 qs
+    (rs.1, r.2 :: rs.2)
+
 /-! ### exact 2x2 integer matrices: the algebra used by the driver -/
 
 structure M2 where
@@ -122,16 +157,17 @@ def M2.one : M2 := ⟨1, 0, 0, 1⟩
 def M2.inv (x : M2) : M2 := ⟨x.d, -x.b, -x.c, x.a⟩
 
 /-- generator of the k-th unit time step (time dependent: alternates two non-commuting shears) -/
-def gen (cte : Bool) (k : Int) : M2 :=
-  if cte then ⟨2, 1, 1, 1⟩ else if k % 2 = 0 then ⟨1, 1, 0, 1⟩ else ⟨1, 0, 1, 1⟩
+def gen (cte : Bool) (w : Nat) (k : Int) : M2 :=
+  if cte then ⟨2, 1, 1, 1⟩ else if k % 2 = 0 then ⟨1, (w : Int) + 1, 0, 1⟩ else ⟨1, 0, 1, 1⟩
 
 /-- G(t) = g_t ⋯ g_1 for t ≥ 0 and g_{t+1}⁻¹ ⋯ g_0⁻¹ for t < 0 -/
-def bigG (cte : Bool) (t : Int) : M2 :=
-  if 0 ≤ t then (List.range t.toNat).foldl (fun acc (k : Nat) => (gen cte ((k : Int) + 1)).mul acc) M2.one
-  else (List.range (-t).toNat).foldl (fun acc (k : Nat) => (gen cte (-(k : Int))).inv.mul acc) M2.one
+def bigG (cte : Bool) (w : Nat) (t : Int) : M2 :=
+  if 0 ≤ t then (List.range t.toNat).foldl (fun acc (k : Nat) => (gen cte w ((k : Int) + 1)).mul acc) M2.one
+  else (List.range (-t).toNat).foldl (fun acc (k : Nat) => (gen cte w (-(k : Int))).inv.mul acc) M2.one
 
-def m2Alg (cte : Bool) : Alg M2 :=
+/-- the evolution under arguments `w` (`none`: the arguments given at construction = 0) -/
+def m2Alg (cte : Bool) (w : Option Nat := none) : Alg M2 :=
   { comp := M2.mul, inv := M2.inv, one := M2.one,
-    phi := fun b a => (bigG cte b).mul (bigG cte a).inv }
+    phi := fun b a => (bigG cte (w.getD 0) b).mul (bigG cte (w.getD 0) a).inv }
 
 end Qv.C11
